@@ -194,7 +194,11 @@ def _random_points_boundary(main_domain, domain_a, domain_b, n, params, device):
             main_domain, domain_a, domain_b, ith_params, n, device=device
         )
         use_b = False  # to switch between sampling on a and b
-        while len(ith_points) < n:
+        rounds = 0
+        # sample on both boundaries at least once: for small n the points of a
+        # alone may already be enough and b would never be proposed
+        while len(ith_points) < n or rounds < 2:
+            rounds += 1
             new_points = domains[use_b].boundary.sample_random_uniform(
                 n=sclaed_n[use_b], params=ith_params, device=device
             )
@@ -202,7 +206,9 @@ def _random_points_boundary(main_domain, domain_a, domain_b, n, params, device):
             index_valid = torch.where(main_domain._contains(new_points, repeat_params))
             ith_points = ith_points | new_points[index_valid[0],]
             use_b = not use_b  # switch to other domain
-        random_points = random_points | ith_points[:n,]
+        # the points of a come first, so choose the n points at random
+        index = torch.randperm(len(ith_points), device=device)[:n]
+        random_points = random_points | ith_points[index,]
     return random_points
 
 
